@@ -398,7 +398,7 @@ def run(ctx):
     if len(exprs) > nmax:
         keep = sorted(ctx.rng.sample(range(len(exprs)), nmax))
         exprs = [exprs[i] for i in keep]; meta = [meta[i] for i in keep]
-    mvals = ctx.coq_eval("safety", PRE, exprs, chunk=max(40, len(exprs) // 16 + 1))
+    mvals = ctx.coq_eval("safety", PRE, exprs, chunk=min(400, max(40, len(exprs) // 16 + 1)), timeout=1200)
     ndis = 0
     for (gi, p, res), mv in zip(meta, mvals):
         s = res["safety"]
